@@ -80,6 +80,15 @@ def preset(cg, kind):
             n.fields['ty'] = b
             n.fields['lhs'] = cg.node('lhs', ty=cg.ptr_to(b, 'lhs.ty'))
             n.fields['rhs'] = cg.node('rhs', ty=b)
+        elif kind == 'ND_STMT_EXPR':
+            # typing relation (add_type): the body is non-empty, its last statement is an expression statement and
+            # the node has that expression's type
+            n.fields['ty'] = ty
+            last = cg.node('body.last', 'ND_EXPR_STMT', lhs=cg.node('body.lhs', ty=ty), next=0)
+            if ctx.choose(2, 'statement expression with one / several statements') == 0:
+                n.fields['body'] = last
+            else:
+                n.fields['body'] = cg.node('body.first', next=last)
         elif kind in ('ND_MEMZERO', 'ND_NULL_EXPR'):
             n.fields['ty'] = cg.tcell('node.ty', only=('void', 'int'))
         elif kind == 'ND_VLA_PTR':
@@ -194,8 +203,6 @@ def check_kind(cg, rep, rule, fname, kind, mk, ret_stmt=False, value_from_last_s
             for p in problems:
                 msgs.append(p)
             for h in exits:
-                if value_from_last_stmt and h[0] == 0 and h[1] in (0, want):
-                    continue
                 if h != (0, want):
                     msgs.append('falls through with %%rsp %+d bytes and x87 depth %+d (contract: +0, %+d)' % (h[0], h[1], want))
             for lab, h in ext:
